@@ -363,7 +363,18 @@ def partition_wiring(sl):
             sorted(asked) == [(i, n) for i in range(n)])
 
 
+def _c14_prepare_loop(sl):
+    from harness import c14
+
+    return c14.prepare_loop(sl)
+
+
 HARNESSES = [
+    Harness("corpus_line_count", _c14_prepare_loop, "symbolic", lambda tier: [{"compressed": False}], reads=READS,
+            stubs=["file system, net.download, io.decompress / prepare_file_offset_table with symbolic outcomes (harness shared with C14 prepare_loop)"],
+            bounds={"declared documents": 1000, "lines counted": "symbolic"},
+            doc="a corpus file whose line count differs from the declared number of documents is rejected on every run (the slices of the "
+                "bulk readers are computed from the declared count): explicit error and the freshly built offset table removed"),
     Harness("partition_wiring", partition_wiring, "bounded-exhaustive", lambda tier: [{}], reads=READS,
             stubs=["parameter source recording partition() calls", "runner registry lookup"],
             bounds={"bulk task": "1..4 clients", "sibling task in the same parallel element": "absent or 1..3 clients, before or after, element capped or not"},
